@@ -108,6 +108,22 @@ def make_pool(seed, n, scratch):
             f.write(t)
     jobs.append({"k": "compile", "text": t1, "path": os.path.join(root, "p1/main.exps"), "lookup": [], "cls": "shared-lib-1", "keep": True})
     jobs.append({"k": "compile", "text": t2, "path": os.path.join(root, "p2/deep/main.exps"), "lookup": [], "cls": "shared-lib-2", "keep": True, "after": t1})
+    # two projects with the same layout (main.exps + lib/common.exps) and one options list with a *relative* lookup path, as a
+    # build script has it: each main file has to get the macros of its own directory, whichever was compiled first
+    root = os.path.join(scratch, f"rel{seed & 0xffff}")
+    texts = []
+    for k, d in enumerate(("q1", "q2/sub")):
+        os.makedirs(os.path.join(root, d, "lib"), exist_ok=True)
+        with open(os.path.join(root, d, "lib", "common.exps"), "w", encoding="utf-8") as f:
+            f.write(f"macro common($x) {{\n    from_project_{k}($x);\n" + ("    more();\n" if k else "") + "}\n")
+        t = f'import "common.exps";\ndef 0 {{\n    p{k}();\n    ~common({k});\n    end;\n}}\n'
+        with open(os.path.join(root, d, "main.exps"), "w", encoding="utf-8") as f:
+            f.write(t)
+        texts.append(t)
+        jobs.append({"k": "compile", "text": t, "path": os.path.join(root, d, "main.exps"), "lookup": ["lib"], "lookup_shared": True,
+                     "cls": f"relative-lookup-{k + 1}", "keep": True})
+    jobs[-1]["after"] = texts[0]
+    jobs[-2]["after"] = texts[1]
     # a script with several hundred routines, like the game's unionall (tables and caches have sizes)
     nr = rnd.choice([520, 600, 700])
     big = "".join(f"coro C{i} {{\n    if ($A == {i}) {{\n        a{i}();\n    }} else {{\n        b();\n    }}\n    end;\n}}\n" for i in range(nr))
